@@ -27,13 +27,13 @@ CHECKS["C19"] = dict(
 
 CHECKS["C18"] = dict(
     technique="static analysis: memo discovery by pattern, transitive field-read sets, in-place-helper mutation summaries, write=>invalidate forward dataflow on the writer's CFG, def-use memo-key completeness",
-    text="For every dict memo of MappingSchema (discovered from the source) the fields its fill function reads are computed transitively; every method that writes such a field (directly or through an in-place helper such as nested_set/new_trie) must fully invalidate the memo on every CFG path to the return, keyed eviction being rejected while the fill resolves partial names; every parameter read by a memoised computation must be in the lookup key; None is never served as a hit. Lookups must be read-only on the registered state: outside the registration methods nothing stores into or mutates a value obtained from self.mapping / find() / nested_get() (taint from registered state to item stores and mutator calls). This is the coherence discipline on which 'answers as a fresh schema would' rests; trie arithmetic is not evaluated. The constructor path normalises every table-path part with is_table=True exactly as the lookup path does.",
+    text="For every dict memo of MappingSchema (discovered from the source) the fields its fill function reads are computed transitively; every method that writes such a field (directly or through an in-place helper such as nested_set/new_trie) must fully invalidate the memo on every CFG path to the return, keyed eviction being rejected while the fill resolves partial names; every parameter read by a memoised computation must be in the lookup key; None is never served as a hit. Lookups must be read-only on the registered state: outside the registration methods nothing stores into or mutates a value obtained from self.mapping / find() / nested_get() (taint from registered state to item stores and mutator calls). This is the coherence discipline on which 'answers as a fresh schema would' rests; trie arithmetic is not evaluated. The constructor path normalises every table-path part with is_table=True exactly as the lookup path does. A flag left out of a memo key as failure-only is verified to choose only between raising and returning None along the whole memoised computation; lookups normalise the identifier (with its quoted flag), not its bare text.",
     ref="DESIGN.md section 4 / C18",
 )
 
 CHECKS["C08"] = dict(
     technique="static analysis: who-may-write enumeration of every store to the tree representation with alias-tracked child lists, shape checks of the primitives, cross-reference of the import-introspected shared-Expr inventory with every syntactic reference",
-    text="The parent/arg_key/index/hash invariant is kept by a handful of primitives; the check enumerates every other store to the representation in the whole package (args items, pointer fields, _hash, raw list mutation of child lists incl. local aliases) and requires each to be a primitive, a provably sound form, or a reviewed exception; checks invalidate-before-write in set/append and unfiltered mirroring in __deepcopy__; and classifies every reference to a process-wide Expr instance as read/copy/compare vs embedding. Also: the same `*args` nodes are not embedded twice (on one path or once per loop iteration) without a copy, and leaf classes (is_primitive, whose constructor links no children) are never constructed around a node. A node looked up in a local dict must be copied before it is embedded (typed lint). Breaking the invariant from outside the primitives requires one of the flagged constructs; index arithmetic inside the primitives is trusted. List arguments are flat (typed), Expression.set re-indexes a child list after every shift on every path, and optimizer helpers never hand a bare parameter to a copy=False builder.",
+    text="The parent/arg_key/index/hash invariant is kept by a handful of primitives; the check enumerates every other store to the representation in the whole package (args items, pointer fields, _hash, raw list mutation of child lists incl. local aliases) and requires each to be a primitive, a provably sound form, or a reviewed exception; checks invalidate-before-write in set/append and unfiltered mirroring in __deepcopy__; and classifies every reference to a process-wide Expr instance as read/copy/compare vs embedding. Also: the same `*args` nodes are not embedded twice (on one path or once per loop iteration) without a copy, and leaf classes (is_primitive, whose constructor links no children) are never constructed around a node. A node looked up in a local dict must be copied before it is embedded (typed lint). Breaking the invariant from outside the primitives requires one of the flagged constructs; index arithmetic inside the primitives is trusted. List arguments are flat (typed), Expression.set re-indexes a child list after every shift on every path, and optimizer helpers never hand a bare parameter to a copy=False builder. In optimizer code a node variable that was moved into a tree reaches no second un-copied hand-over (path search on the CFG incl. back edges, with the repository's last-iteration / first-iteration idioms); __deepcopy__ stores cached hashes only before attaching children.",
     ref="DESIGN.md section 4 / C08",
 )
 
@@ -51,13 +51,13 @@ CHECKS["C15"] = dict(
 
 CHECKS["C12"] = dict(
     technique="static analysis: writer/reader key-set agreement of the wire format, per-slot coverage of Expression.__slots__ (import introspection) by dump/load/__deepcopy__, typed JSON-safety lint (mypy as a library) over meta stores and constructor arguments",
-    text="dump and load/_load must agree on the set of payload keys; every slot of Expression must be read by dump, restored by load (links through set/append) and copied by __deepcopy__, so a newly added field cannot be silently dropped; every value stored into meta (and, thorough tier, every non-expression constructor/set argument, 4000+ sites) must have a JSON-representable static type or be an expression that dump encodes; pickle must delegate to the same pair. The DType codec must agree between dump (.value/.name) and _load (call/subscript), and nothing on the serialisation path may be memoised on expression-typed parameters (tree equality ignores comments, meta, case). Decides field coverage and JSON-safety structurally; value-level round trips are not executed.",
+    text="dump and load/_load must agree on the set of payload keys; every slot of Expression must be read by dump, restored by load (links through set/append) and copied by __deepcopy__, so a newly added field cannot be silently dropped; every value stored into meta (and, thorough tier, every non-expression constructor/set argument, 4000+ sites) must have a JSON-representable static type or be an expression that dump encodes; pickle must delegate to the same pair. The DType codec must agree between dump (.value/.name) and _load (call/subscript), and nothing on the serialisation path may be memoised on expression-typed parameters (tree equality ignores comments, meta, case). _load resolves a dotted class name only through the module dump recorded. Decides field coverage and JSON-safety structurally; value-level round trips are not executed.",
     ref="DESIGN.md section 4 / C12",
 )
 
 CHECKS["C13"] = dict(
     technique="static analysis: symbolic (linear normal form) check of the scanner's cursor invariant on every block that writes the offset, keyword/field agreement of the token stamp, inclusive-end convention lint at every consumer",
-    text="The tokenizer keeps _char/_peek/_end/_col consistent with _current by hand in three places (_advance, its alnum batch, the str.find string fast path); each block that writes _current must re-establish the three equalities with symbolically equal expressions and move the column in lockstep, so an off-by-one in a fast path is caught without running it. The string fast path must count exactly the line breaks _advance counts (count-term vector incl. CR LF pairing) and restart the column after the last of them. Token stamps, every slice/adjacency/highlight consumer of the inclusive end, TokenError's own slice and same-token error reporting are shape-checked. Tiling of the input by tokens is not decided. The window slice feeding the lookahead clamps its lower bound; the i>1 branch of _advance counts the line breaks it skips; self._prev/_curr is never read as an argument after a sibling argument moved the cursor; a variable-length rewind restores _line/_col; after a nested _scan the enclosing method re-assigns _start before emitting its own token. On every path through the scanner's methods _start is re-assigned between two token emissions, so no two tokens are stamped with overlapping spans.",
+    text="The tokenizer keeps _char/_peek/_end/_col consistent with _current by hand in three places (_advance, its alnum batch, the str.find string fast path); each block that writes _current must re-establish the three equalities with symbolically equal expressions and move the column in lockstep, so an off-by-one in a fast path is caught without running it. The string fast path must count exactly the line breaks _advance counts (count-term vector incl. CR LF pairing) and restart the column after the last of them. Token stamps, every slice/adjacency/highlight consumer of the inclusive end, TokenError's own slice and same-token error reporting are shape-checked. Tiling of the input by tokens is not decided. The window slice feeding the lookahead clamps its lower bound; the i>1 branch of _advance counts the line breaks it skips; self._prev/_curr is never read as an argument after a sibling argument moved the cursor; a variable-length rewind restores _line/_col; after a nested _scan the enclosing method re-assigns _start before emitting its own token. On every path through the scanner's methods _start is re-assigned between two token emissions, so no two tokens are stamped with overlapping spans. A function that hands tokens to a parser entry point hands the source text on with them.",
     ref="DESIGN.md section 4 / C13",
 )
 
@@ -80,13 +80,13 @@ CHECKS["C04"] = dict(
 
 CHECKS["C01"] = dict(
     technique="static analysis: exhaustiveness of generator dispatch over the classes each dialect's parser chain constructs (AST + import-introspected dispatch tables), fixpoint closure of operator, time-format, function-name and type-name tables across tokenizer/parser/generator",
-    text="For all 34 SQL dialect classes: every expression class the dialect's parser chain can construct must be printable by the same dialect's generator (16k class-dialect pairs); every table-driven binary operator printed by self.binary(e, OP) must tokenize and re-parse to the same class (base) or to a class printed identically (500+ obligations); the effective time/format mapping tables must be idempotent on the generator's image (900+ entries). These are necessary conditions of the round-trip fixpoint visible in tables; precedence, nesting and bespoke parse/print pairs are run-time valued and NOT decided. Every Parser/Generator/Tokenizer setting that a dialect overrides must be read somewhere (a dead setting means the dialect's reader and writer silently stopped agreeing). Function names (13k obligations) and single-word type names (2.5k) printed by a dialect must be read back by the same dialect as the same class / type or as one printed under that name again; this table rule found 119 (dialect, type) pairs that are not fixpoints (LONGTEXT -> TEXT -> STRING in Spark ...), each confirmed by two round trips and listed as a known finding because the repair contradicts outputs pinned by the existing suite.",
+    text="For all 34 SQL dialect classes: every expression class the dialect's parser chain can construct must be printable by the same dialect's generator (16k class-dialect pairs); every table-driven binary operator printed by self.binary(e, OP) must tokenize and re-parse to the same class (base) or to a class printed identically (500+ obligations); the effective time/format mapping tables must be idempotent on the generator's image (900+ entries). These are necessary conditions of the round-trip fixpoint visible in tables; precedence, nesting and bespoke parse/print pairs are run-time valued and NOT decided. Every Parser/Generator/Tokenizer setting that a dialect overrides must be read somewhere (a dead setting means the dialect's reader and writer silently stopped agreeing). Function names (13k obligations) and single-word type names (2.5k) printed by a dialect must be read back by the same dialect as the same class / type or as one printed under that name again; this table rule found 119 (dialect, type) pairs that are not fixpoints (LONGTEXT -> TEXT -> STRING in Spark ...), each confirmed by two round trips and listed as a known finding because the repair contradicts outputs pinned by the existing suite. Alias tables keyed by a node's name are idempotent under one lookup, and a parser-side version gate that marks the tree cuts the version line where the generator has a gate.",
     ref="DESIGN.md section 4 / C01",
 )
 
 CHECKS["C05"] = dict(
     technique="static analysis: loop-progress dataflow with interprocedural 'productive' summaries (greatest fixpoint over all parser classes) on a hand-built CFG; provenance/consumption analysis of cursor moves; must-dataflow dominance for table lookups; raise-family lint, length-bound and token-existence dataflows, typed definite-assignment lint",
-    text="Every while loop of the recursive-descent parser (all 34 parser classes) and of the tokenizer must reach each back edge having consumed a token (consuming-match conditions, unconditional advances, peek-then-parse, explicit progress checks, productive callees derived by a fixpoint) or be a recognised non-cursor loop; every backward cursor move must target a saved index or be covered by consumption/dispatch credit; every class-table lookup must be dominated by a successful match on the same table; the generator's fall-through and every explicit raise must stay inside the library's error family; constant indexing of function-builder argument lists and of every list-typed local/attribute of the parser, tokenizer and JSON-path parser needs a dominating length fact (length-bound dataflow, one-level caller facts for list parameters); every forward _advance needs evidence that the token it steps over exists; callees that un-read their caller's match are charged back to the caller's loop; locals are definitely assigned (mypy possibly-undefined); cursor-relative subscripts of the token list carry a bound test; no generator handler renders the same child twice in one execution (2^depth work); the scanner runs only under the TokenError wrapper. This found and led to fixes for five parser hangs, a cursor restored one token too far and seven IndexError/UnboundLocalError leaks. None-dereferences, work bounds and recursion depth are not decided. _advance_chunk advances are bounded by the chunk, and enum lookups by computed name are guarded.",
+    text="Every while loop of the recursive-descent parser (all 34 parser classes) and of the tokenizer must reach each back edge having consumed a token (consuming-match conditions, unconditional advances, peek-then-parse, explicit progress checks, productive callees derived by a fixpoint) or be a recognised non-cursor loop; every backward cursor move must target a saved index or be covered by consumption/dispatch credit; every class-table lookup must be dominated by a successful match on the same table; the generator's fall-through and every explicit raise must stay inside the library's error family; constant indexing of function-builder argument lists and of every list-typed local/attribute of the parser, tokenizer and JSON-path parser needs a dominating length fact (length-bound dataflow, one-level caller facts for list parameters); every forward _advance needs evidence that the token it steps over exists; callees that un-read their caller's match are charged back to the caller's loop; locals are definitely assigned (mypy possibly-undefined); cursor-relative subscripts of the token list carry a bound test; no generator handler renders the same child twice in one execution (2^depth work); the scanner runs only under the TokenError wrapper. This found and led to fixes for five parser hangs, a cursor restored one token too far and seven IndexError/UnboundLocalError leaks. None-dereferences, work bounds and recursion depth are not decided. _advance_chunk advances are bounded by the chunk, and enum lookups by computed name are guarded. Table-dispatched callables called with keywords run under a TypeError conversion or every entry accepts the keyword; to_py() conversions of parsed nodes are guarded and assert_is is not applied to them; stepped walks over argument lists stay inside the list.",
     ref="DESIGN.md section 4 / C05",
 )
 
